@@ -7,7 +7,7 @@ use crate::spaces::*;
 use serde_json::{json, Value};
 use sourcemap::{decode_data_url, is_sourcemap, is_sourcemap_slice, locate_sourcemap_reference, locate_sourcemap_reference_slice, DecodedMap, SourceMapRef};
 
-const LINE_MENU: [&str; 15] = [
+const LINE_MENU: [&str; 16] = [
     "var a=1;",
     "//# sourceMappingURL=u1.map",
     "//@ sourceMappingURL=u2.map",
@@ -26,6 +26,8 @@ const LINE_MENU: [&str; 15] = [
     "//# sourceMappingURL＝fullwidth.map",
     // padding that is white space, but not ASCII white space (no-break space, ideographic space)
     "//# sourceMappingURL=\u{a0}u5.map\u{3000}",
+    // a byte-order mark in front of the comment: the line does not begin with the key
+    "\u{feff}//# sourceMappingURL=bom.map",
 ];
 
 /// RDetect.locate: first line that *begins* with either prefix; URL trimmed; '@' = legacy.
@@ -181,7 +183,7 @@ pub fn run(run: &mut Run) -> Finish {
     let nmenu = LINE_MENU.len() as u64;
     let nseq = n_seq_upto(nmenu, max_lines);
     // x line ending {\n, \r\n} x final newline {no, yes}
-    run.par_slice("texts: every sequence of <= 5/6 lines over a 15-line menu x {\\n, \\r\\n} x final newline {no, yes}", 1, nseq * 4, |idx, l| {
+    run.par_slice("texts: every sequence of <= 5/6 lines over a 16-line menu x {\\n, \\r\\n} x final newline {no, yes}", 1, nseq * 4, |idx, l| {
         let k = idx & ((1 << 40) - 1);
         let lines = seq_upto_unrank(nmenu, max_lines, k / 4);
         let nl = if k % 2 == 0 { "\n" } else { "\r\n" };
@@ -203,7 +205,7 @@ pub fn run(run: &mut Run) -> Finish {
     // long texts: the comment after 63..1030 lines of code (some longer than a read buffer), and
     // look-alikes in front of it
     let long_ns = [63usize, 64, 65, 129, 1030];
-    run.par_slice("long texts: 63/64/65/129/1030 code lines (every 7th a look-alike or another directive, one line of 9000 bytes) before each of the 15 menu lines, both line endings", 8, long_ns.len() as u64 * nmenu * 2, |idx, l| {
+    run.par_slice("long texts: 63/64/65/129/1030 code lines (every 7th a look-alike or another directive, one line of 9000 bytes) before each of the 16 menu lines, both line endings", 8, long_ns.len() as u64 * nmenu * 2, |idx, l| {
         let k = idx & ((1 << 40) - 1);
         let d = mixed_radix(k, &[2, nmenu, long_ns.len() as u64]);
         let nl = if d[0] == 0 { "\n" } else { "\r\n" };
